@@ -489,6 +489,10 @@ DETACH_MAY_TRUNCATE = {"mpt_array_reserve": "explicit capacity request", "mpt_ar
                        "mpt_array_push": "request follows the encoder state (done + scratch), which the buffer fields do not determine"}
 LINBUF_CXX_EXCLUDED = {
     "mpt::slice::write": "forwards to mpt_slice_write, which is analysed as a C entry point (the combined exploration exceeds the budget)",
+    "mpt::array::set": "the four overloads go through int/size_t conversions of a strlen() result and through reference<content>::instance() twice; "
+                       "the engine does not identify the two loads of the handle's buffer and reports the copies as unbounded (read: not decided)",
+    "mpt::encode_array::shift": "after the fix the moved length is `done + scratch` (a sum of two unsigned state fields) against content::length() of the "
+                                "buffer found through array::data(); the engine loses the identity of that buffer across the inline accessors (not decided)",
 }
 GAPFILL_EXEMPT = {"mpt_buffer_insert": "returns the inserted area", "mpt_array_insert": "returns the inserted area"}
 GLOBAL_INV = {"_mpt_buffer_alloc_psize": (0, 4 * 1024 * 1024 + 8, 8)}      # 0 (unset) or a page size of at least 8
@@ -1324,6 +1328,7 @@ def _msg_root(i):
     an.state_budget = 6000
     an.peel = True
     an.track_wraps = True
+    an.taint_exact = True
     an.policy = (lambda fr, g: "inline" if g.file in fileset else "modular")
     entry, fr, outs = an.analyse_root(f)
     for k in ("states", "paths", "inlined"):
